@@ -151,3 +151,30 @@ theorem displaceEntries_no_panic (w : Nat) (disp : Int) (fuel : Nat) (bs : Bytes
         · rename_i s' hs; exact absurd hs (ih _ _)
 
 end MediaSan.Mp4
+
+namespace MediaSan.Mp4
+open MediaSan
+
+theorem displaceEntries_length (w : Nat) (disp : Int) (fuel : Nat) (bs out : Bytes)
+    (h : displaceEntries w disp fuel bs = .ok out) : out.length = bs.length := by
+  induction fuel generalizing bs out with
+  | zero => simp only [displaceEntries, PureRes.ok.injEq] at h; subst h; rfl
+  | succ fuel ih =>
+    simp only [displaceEntries] at h
+    split at h
+    · simp only [PureRes.ok.injEq] at h; subst h; rfl
+    · rename_i hlong
+      try simp only at h
+      split at h
+      · simp at h
+      · split at h
+        · rename_i rest hrest
+          simp only [PureRes.ok.injEq] at h
+          subst h
+          have := ih _ _ hrest
+          simp only [List.length_append, natToBE_length, this, List.length_drop]
+          omega
+        · simp at h
+        · simp at h
+
+end MediaSan.Mp4
